@@ -7,7 +7,13 @@ class T0(State):
 
 
 class T1(State):
+    """instances with an even `v` (the default-constructed one included) are falsy: a State may define `__bool__`
+    or `__len__`; presence in a scope must never be decided by truthiness"""
+
     v: int = 0
+
+    def __bool__(self) -> bool:
+        return self.v % 2 == 1
 
 
 class T2(State):
